@@ -1,13 +1,14 @@
 from checks import finite
 from checks.e3ir import run_e3ir
 from checks.e3meta import run_e3meta
+from checks.e3tables import run_e3tables
 from checks.generic import run_components
 
-ASSUME = ["A-FLOAT", "equality of the element tensors under the options is decided only on the corpus (E3 metamorphic: both kernels executed on identical pseudo-random inputs, bounded); ufl.extract_blocks for mixed spaces is external",
+ASSUME = ["E3 tables: run-time contract on build_optimized_tables (offsets, permutation axis, values against an independent basix tabulation) is bounded by the corpus calls", "A-FLOAT", "equality of the element tensors under the options is decided only on the corpus (E3 metamorphic: both kernels executed on identical pseudo-random inputs, bounded); ufl.extract_blocks for mixed spaces is external",
           "E2/E3 run on the corpus with sum_factorization on/off and part=diagonal/full"]
 
 
 def run(tier, seed):
     return run_components("C10", tier, seed,
-                          ["e1", finite.c10_sumfact_scope, finite.c10_clamp, lambda rep, t, s: run_e3ir(rep, "C10", t, only=("tensor", "wf_blockmap")), "e2", run_e3meta],
+                          ["e1", finite.c10_sumfact_scope, finite.c10_clamp, lambda rep, t, s: run_e3ir(rep, "C10", t, only=("tensor", "wf_blockmap")), "e2", run_e3meta, lambda rep, t, sd: run_e3tables(rep, t, sd, ("T-FACTORS",))],
                           ASSUME, ["kernelvc (E2)"])
